@@ -578,6 +578,10 @@ func render(logical, tok string, builtin []byte) []byte {
 		return []byte("name: [unclosed\n  - : :\n\t{{{\n")
 	case strings.HasPrefix(tok, "x"):
 		return []byte(tok)
+	case strings.HasPrefix(logical, "f/") && tok[0] == 'd':
+		// the flow v<k> of this file, but NAMED like every other d-flow: two of them loaded = duplicate flow name
+		good := string(render(logical, "v"+tok[1:], builtin))
+		return []byte(strings.Replace(good, "name: flow_"+stem(logical)+"\n", "name: flow_shared_name\n", 1))
 	case strings.HasPrefix(logical, "f/") && tok[0] == 'e':
 		// valid YAML, but with an EMPTY / null map entry at one level of the flow document: every such file
 		// must be refused by the dry run (never crash the loader)
